@@ -15,7 +15,7 @@ class C03(C04):
             'or a type mentioning a parameter; distinct by (feature vector, item)')
 
     def n(self, tier):
-        return 200 if tier == 'quick' else 3000
+        return 200 if tier == 'quick' else 12000
 
     def cases(self, tier, rng):
         out = super().cases(tier, rng)
